@@ -280,6 +280,8 @@ def cli_extract_part(ctx, exe, so, items, big=frozenset()):
         n = fo.seek(0, 2)
         fo.close()
         os.unlink(fo.name)
+        if rc == -signal.SIGXFSZ and os.path.getsize(e['VERIF_FS_LOG']) >= OUT_CAP - 65536:
+            rc = -998           # the file that hit the size limit is the guard's log of filesystem calls: hundreds of thousands of them
         os.unlink(e['VERIF_FS_LOG'])
         return rc, n
 
@@ -296,6 +298,8 @@ def cli_extract_part(ctx, exe, so, items, big=frozenset()):
         # destination name is built by joining strings, and the parent-directory walk sees whatever results), absolute ones
         mode = ('x', 'e', 'xi', 'xw=out/', 'xw=o//deep', 'ew=./p/', 'xiw=q///', 'xw=.', 'xw=' + root + '/abs//sub/', 'xqw=a/./b', 'xvw=/' + root)[i % 11]
         ans2 = ANSWERS[i % len(ANSWERS)]
+        if tag.startswith('collision-'):
+            mode = ('xf', 'xq', 'ef', 'xfw=out', 'xq1')[i % 5]
         label = mode.replace(root, '<root>')
         for rnd_no, stdin in ((1, b''), (2, ans2), (3, ANSWERS[(i * 7 + 3) % len(ANSWERS)])):
             if hangs.get(label, 0) >= 4:
@@ -307,7 +311,7 @@ def cli_extract_part(ctx, exe, so, items, big=frozenset()):
             out.append((label, rnd_no, stdin, rc, n, bound))
             if rc == -999 and tag not in big:
                 hangs[label] = hangs.get(label, 0) + 1
-            if rc == -999 or rc == -signal.SIGXFSZ:
+            if rc in (-999, -998) or rc == -signal.SIGXFSZ:
                 break
         shutil.rmtree(root, ignore_errors=True)
         return tag, A, out
@@ -325,6 +329,10 @@ def cli_extract_part(ctx, exe, so, items, big=frozenset()):
                 elif rc == -999:
                     ctx.violation('C13-cli-no-return:%s:run%d:%s' % (mode, min(rnd_no, 2), base_tag), "'lha %s' on %s (run %d into the same directory, stdin %r) did not "
                                   'finish within the watchdog twice' % (mode, tag, rnd_no, stdin[:20]), A)
+                elif rc == -998:
+                    ctx.violation('C13-cli-unbounded-filesystem-calls:%s:run%d:%s' % (mode, min(rnd_no, 2), base_tag), "'lha %s' on %s (run %d into the same "
+                                  'directory, stdin %r) made filesystem calls until their log reached %d bytes (an archive of %d bytes)'
+                                  % (mode, tag, rnd_no, stdin[:20], OUT_CAP, len(A)), A)
                 elif rc == -signal.SIGXFSZ and n < OUT_CAP - 65536:
                     ctx.count('extractions_stopped_by_the_file_size_limit_on_an_extracted_file')     # a big member, not messages
                 elif rc == -signal.SIGXFSZ or n > bound:
@@ -396,6 +404,14 @@ def run(ctx):
     whole = [it for it in items if it[0].startswith('generated-') and '@cut' not in it[0]]
     xitems = whole * (3 if ctx.tier == 'quick' else 5) + [it for it in items if '@cut' in it[0]][::(11 if ctx.tier == 'quick' else 3)] \
         + [it for it in items if it[0].startswith('mutated-')][:(60 if ctx.tier == 'quick' else 1500)]
+    # entries that collide on disk (the same name stored twice, or as a directory and a file, a link and a directory, ...): the
+    # tool meets things in place that it cannot replace (a directory where a file is to be created) - with the overwrite question
+    # out of the way ('collision-': f / q modes) and with it asked and answered ('collisionp-': the ordinary mode cycle)
+    from . import c20
+    for name, members in c20.collision_archives(random.Random(ctx.seed * 5 + 2), ctx.tier):
+        A = arc.archive(members)
+        xitems.append(('collision-' + name.split(':', 1)[-1], A, len(members)))
+        xitems.append(('collisionp-' + name.split(':', 1)[-1], A, len(members)))
     cli_extract_part(ctx, exe_cli, so, xitems, big)
     ctx.cov['rule'] = ('(input, stream kind, operation) triples: every truncation offset of generated multi-member archives (all methods), extreme '
                        'length declarations, inputs without a header up to and around the 256 KiB scan limit, a read callback that reports an error from every (5th) offset on, self-referential and pm1-endless '
